@@ -207,6 +207,18 @@ async def checkpoint(ctx, case, sess, client, drivers, specs, tracks, mirror, sn
         if diffs:
             ctx.violate(f"snooping-client:{diffs[0][0]}", f"step {step}: {diffs[0][1]}", case, {"step": step, "diffs": diffs[:6]})
             return False
+        # The snooping client is a registered client like any other: the library client's handshake made EVERY device define itself
+        # to everybody, so it also mirrors the device of the very driver it belongs to - a client other than that driver.
+        own = 1
+        expected = DV.expected_device(drivers[own], specs[own], tracks[own])
+        v = stack.client_view(sn_client).get(specs[own]["name"], {})
+        expected = {k: (dict(p, state=v.get(k, {}).get("state", p["state"])) if p["kind"] == "BLOB" else p) for k, p in expected.items()}
+        ctx.count("snooping_client_checkpoints_on_its_own_drivers_device")
+        diffs = fullstack.compare_mirror(dict(v), expected, who="snooping-client")
+        if diffs:
+            ctx.violate(f"snooping-client:own-device:{diffs[0][0]}", f"step {step}: the snooping client of driver {specs[own]['name']} about that driver's own device: {diffs[0][1]}",
+                        case, {"step": step, "diffs": diffs[:6]})
+            return False
     return True
 
 
